@@ -262,3 +262,63 @@ def method_value_programs():
 
 
 ACCEPT.update(method_value_programs())
+
+
+# ---- self-recursive functions whose recursive call passes a PERMUTATION of their parameters (round f)
+def permutation_recursion_programs(full=False):
+    """k in {2,3,4} extra parameters; the self-call passes a permutation of them (all k! for k <= 3,
+    rotations and transpositions for 4); every parameter is either used in the base case or used
+    nowhere but in the self-call (forwarded, possibly into ANOTHER slot); types int / Str / class / enum /
+    closure; tail and non-tail recursion; depth 3 at run time.  A parameter is removable only if every
+    self-call passes it in its OWN slot: expected output = the permutation applied 3 times to the
+    initial arguments, shown at the used positions.  quick: types and tail/non-tail cycle over the
+    (k, permutation, used-mask) combinations; full (thorough): the whole product."""
+    import itertools
+    types = {
+        "int": ("int", ["11", "22", "33", "44"], "Str.fromInt({x})", ["11", "22", "33", "44"]),
+        "Str": ("Str", ['"a"', '"b"', '"c"', '"d"'], "{x}", ["a", "b", "c", "d"]),
+        "class": ("Pt", ["Pt.init(1)", "Pt.init(2)", "Pt.init(3)", "Pt.init(4)"], "Str.fromInt({x}.v)", ["1", "2", "3", "4"]),
+        "enum": ("En", ["En.A()", "En.B(2)", "En.B(3)", "En.C(4)"], "Main.sh({x})", ["A", "B2", "B3", "C4"]),
+        "closure": ("(int) -> int", ["(q: int) -> q + 1", "(q: int) -> q + 2", "(q: int) -> q * 5", "(q: int) -> q * 7"],
+                    "Str.fromInt({x}(1))", ["2", "3", "5", "7"]),
+    }
+    tnames = list(types)
+    out = {}
+    idx = 0
+    for k in (2, 3, 4):
+        if k <= 3:
+            perms = list(itertools.permutations(range(k)))
+        else:
+            perms = [tuple((i + r) % 4 for i in range(4)) for r in range(4)]
+            for a in range(4):
+                for b in range(a + 1, 4):
+                    pm = list(range(4)); pm[a], pm[b] = pm[b], pm[a]; perms.append(tuple(pm))
+        for perm in perms:
+            for mask in range(1 << k):
+                combos = [(t, tail) for t in tnames for tail in (True, False)] if full else \
+                    [(tnames[idx % 5], idx % 2 == 0)]
+                idx += 1
+                for tn, tail in combos:
+                    T, vals, show, shown = types[tn]
+                    used = [i for i in range(k) if (mask >> i) & 1]
+                    params = ", ".join(f"p{i}: {T}" for i in range(k))
+                    base = " :: \",\" :: ".join(show.replace("{x}", f"p{i}") for i in used) if used else '"z"'
+                    # slot j of the self-call receives parameter perm[j]
+                    rec = "Main.rot(n - 1, " + ", ".join(f"p{perm[j]}" for j in range(k)) + ")"
+                    step = rec if tail else rec + ' :: "!"'
+                    body = f"if n == 0 {{ {base} }} else {{ {step} }}"
+                    # reference semantics: after one step slot j holds the old value of slot perm[j]
+                    cur = list(range(k))
+                    for _ in range(3):
+                        cur = [cur[perm[j]] for j in range(k)]
+                    exp = (",".join(shown[cur[i]] for i in used) if used else "z") + ("" if tail else "!!!")
+                    src = ("class Pt(val v: int) {}\nclass En(A, B(int), C(int)) {}\nclass Main {\n"
+                           "  function sh(e: En): Str = match e { A -> \"A\", B(n) -> \"B\" :: Str.fromInt(n), C(n) -> \"C\" :: Str.fromInt(n) }\n"
+                           f"  function rot(n: int, {params}): Str = {body}\n"
+                           "  function main(): unit = {\n    let d = \"3\".toInt();\n"
+                           f"    let _ = Process.println(Main.rot(d, {', '.join(vals[:k])}));\n  }}\n}}\n")
+                    out[f"self-call passing permutation {perm} of {k} {tn} parameters, used in the base case: {used}, {'tail' if tail else 'non-tail'}"] = (src, [exp])
+    return out
+
+
+ACCEPT.update(permutation_recursion_programs())
